@@ -169,13 +169,18 @@ impl Engine for E2 {
             2 => Route::Udp,
             _ => Route::Unix,
         };
-        // C05/C06/C13/C19 quantify over capacities, terminators and histories, not over faults:
-        // they are judged on fault-free histories only. C07 is the property about failures.
+        // C19 (packing) is judged on fault-free histories only; C05's framing clause and C06's
+        // conservation clause are also judged on histories with failed writes (a quarter of their
+        // runs); C07 is the property about failures.
         let mode = match focus {
             "C07" | "C20" => match cfg.weighted(&[8, 77, 15]) {
                 0 => LbMode::FaultFree,
                 1 => LbMode::Faulty,
                 _ => LbMode::FlushFault,
+            },
+            "C05" | "C06" => match cfg.weighted(&[75, 25]) {
+                0 => LbMode::FaultFree,
+                _ => LbMode::Faulty,
             },
             _ => LbMode::FaultFree,
         };
@@ -764,15 +769,34 @@ fn run_case(case: &LbCase, out: &mut Outcome, want_trace: bool) {
         check_stream(cap, &term, &ms, &writes, final_ok, cons, out);
         out.probe("stream_oracle_checked");
     }
-    // under injected failures every clause is C07's ("failures never cause ..."); the fault-free
-    // properties are judged on fault-free histories only
+    // under injected failures every clause is also C07's ("failures never cause ..."); the framing
+    // clauses stay C05's ("every write ... no write contains a partial line") and the conservation
+    // clauses stay C06's ("by the time a later flush returns Ok"), C19 is fault-free only
     if case.mode != LbMode::FaultFree {
         for v in out.violations.iter_mut() {
             if v.props.iter().any(|p| p == "C13") && v.clause.starts_with("net.") {
                 continue;
             }
             let panicked = v.clause.contains("panicked");
-            v.props = if panicked { vec!["C07".to_string(), "C20".to_string()] } else { vec!["C07".to_string()] };
+            let framing = matches!(
+                v.clause.as_str(),
+                "linebuf.write-not-whole-lines" | "linebuf.write-exceeds-capacity" | "stream.write-exceeds-capacity" | "stream.partial-or-foreign-line" | "stream.unterminated-line" | "stream.oversize-merged" | "linebuf.bypass-payload"
+            );
+            let conservation = matches!(
+                v.clause.as_str(),
+                "linebuf.flush-ok-but-still-buffered" | "linebuf.written-twice" | "linebuf.write-wrong-lines" | "stream.accepted-never-written" | "stream.written-twice" | "linebuf.drop-left-metrics-unwritten" | "stream.order" | "linebuf.bypass-not-written"
+            );
+            let mut props = vec!["C07".to_string()];
+            if panicked {
+                props.push("C20".to_string());
+            }
+            if framing && case.mode == LbMode::Faulty {
+                props.push("C05".to_string());
+            }
+            if conservation && case.mode == LbMode::Faulty {
+                props.push("C06".to_string());
+            }
+            v.props = props;
         }
     }
 }
